@@ -6,6 +6,7 @@
 package imapwire
 
 import (
+	"github.com/emersion/go-imap/v2/internal/utf7"
 	"bufio"
 	"io"
 	"strconv"
@@ -398,3 +399,19 @@ func QuotedSpec(s string) string {
 //
 //@ pure
 func GhostListRoom(dec *Decoder) int { return maxListDepth - dec.listDepth }
+
+// Mailbox names: INBOX (in any case) is written as the atom INBOX; every other
+// name goes through the modified UTF-7 encoder - always, also when it is plain
+// ASCII ('&' must become "&-") - and is then written as a string.
+//
+//@ func (enc *Encoder) Mailbox(name string) (result *Encoder)
+//@   props C01:callsite,post C02:callsite,post
+//@   callsite Encoder.Atom(e *Encoder, s string) requires strings.EqualFold(name, "INBOX") && s == "INBOX"
+//@   callsite Encoder.String(e *Encoder, s string) requires !strings.EqualFold(name, "INBOX") && s == utf7Name(name)
+//@   ensures __called("Encoder.Atom") || __called("Encoder.String")
+
+//@ pure
+func utf7Name(name string) string {
+	s, _ := utf7.Encoding.NewEncoder().String(name)
+	return s
+}
